@@ -71,4 +71,43 @@ def defectReal (c : Container) (e : ValErr) : Bool :=
   let Z := zeroSet c
   (reachable c).any fun d => (defectsAt c Z d).contains e
 
+/-! ### the same specification, declaratively (no iteration counts, no stacks) -/
+
+/-- zero-sizedness by the rules with a depth bound and **no** cycle handling: true iff a derivation
+of depth at most `h` exists.  "Zero-sized" is `∃ h, zsH c h d = true`: a cycle has no finite
+derivation, so it is not zero-sized. -/
+def zsH (c : Container) : Nat → Name → Bool
+  | 0, _ => false
+  | h+1, d =>
+    match c.get d with
+    | none => false
+    | some (.primitive s) => s == 0
+    | some (.sequence lw lo hi e) => lw == 0 && ((lo == hi && lo == 0) || zsH c h e)
+    | some (.tuple es) => es.all (zsH c h)
+    | some (.enum tw vs) => tw == 0 && (vs.map (·.2.2)).all (zsH c h)
+    | some (.struct fs) => fs.decls.all (zsH c h)
+
+def ZeroSized (c : Container) (d : Name) : Prop := ∃ h, zsH c h d = true
+
+/-- `x` is reachable from `d` through sequence elements, tuple members, variants and fields -/
+inductive Reach (c : Container) : Name → Name → Prop
+  | refl (d : Name) : Reach c d d
+  | step {d e x : Name} (df : Defn) : c.get d = some df → e ∈ df.children → Reach c e x → Reach c d x
+
+/-- the declaration `d` is ill-formed: undefined; or a dynamically sized sequence with an empty
+length range, an illegal length width, or zero-sized elements; or an enum whose tag is wider than
+eight bytes -/
+def Defect (c : Container) (d : Name) : Prop :=
+  match c.get d with
+  | none => True
+  | some (.sequence lw lo hi e) =>
+    isFixedLen lw lo hi = false ∧ (hi < lo ∨ lengthWidthOk lw hi = false ∨ ZeroSized c e)
+  | some (.enum tw _) => 8 < tw
+  | some _ => False
+
+/-- "every declaration reachable from the root is defined, every dynamically sized sequence has a
+non-empty length range, a legal length width and elements that are not zero-sized, and every tag
+width is at most eight bytes" -/
+def WellFormed (c : Container) : Prop := ∀ d, Reach c c.decl d → ¬ Defect c d
+
 end Borsh
